@@ -54,26 +54,52 @@ pub fn judge_templates(prop: &str, cases: &[Case], rep: &mut Report, describe: &
 /// information object class (`CLS.&code`, the field being INTEGER): the definition must come out as with INTEGER written
 /// in place. (Definitions that mention a class are rebuilt by the linker, member by member.)
 pub fn with_class_field(asn: &str, i: usize) -> Option<String> {
+    with_class_field_at(asn, i, false)
+}
+
+/// `last`: the last eligible occurrence instead of the first (mostly one inside an anonymous nested type or a list element)
+pub fn with_class_field_at(asn: &str, i: usize, last: bool) -> Option<String> {
+    let mut found = None;
     for (at, _) in asn.match_indices(" INTEGER") {
         let rest = &asn[at + 8..];
         let rest_t = rest.strip_prefix(" OPTIONAL").unwrap_or(rest);
         if rest_t.starts_with(',') || rest_t.starts_with(" }") {
-            return Some(format!("{} CLS{i}.&code{}", &asn[..at], rest));
+            found = Some(format!("{} CLS{i}.&code{}", &asn[..at], rest));
+            if !last {
+                break;
+            }
         }
     }
-    None
+    found
 }
 
+pub const CLASS_FIELD_SETTING: &str = "one INTEGER component written as a fixed-type class field reference";
+pub const CLASS_FIELD_SETTING_LAST: &str = "the last INTEGER component (nested ones included) written as a fixed-type class field reference";
+
 pub fn judge_class_field(prop: &str, cases: &[Case], rep: &mut Report, describe: &dyn Fn(&Case) -> Vec<String>) {
-    let keep: Vec<Case> = cases.iter().enumerate().filter(|(i, c)| c.tag.is_none() && with_class_field(&c.ty.asn(), *i).is_some()).map(|(_, c)| c.clone()).collect();
+    judge_class_field_at(prop, cases, rep, describe, false);
+    judge_class_field_at(prop, cases, rep, describe, true);
+}
+
+pub fn judge_class_field_at(prop: &str, cases: &[Case], rep: &mut Report, describe: &dyn Fn(&Case) -> Vec<String>, last: bool) {
+    let keep: Vec<Case> = cases
+        .iter()
+        .enumerate()
+        .filter(|(i, c)| {
+            let a = c.ty.asn();
+            // the second pass only where it differs from the first
+            c.tag.is_none() && with_class_field_at(&a, *i, last).is_some() && (!last || with_class_field_at(&a, *i, true) != with_class_field_at(&a, *i, false))
+        })
+        .map(|(_, c)| c.clone())
+        .collect();
     let obs = compile_cases_with(&keep, rep, &|c: &Case, i: usize| {
-        format!("CLS{i} ::= CLASS {{ &code INTEGER UNIQUE, &Type OPTIONAL }}\n{} ::= {}", top_name(i), with_class_field(&c.ty.asn(), i).unwrap_or_else(|| c.ty.asn()))
+        format!("CLS{i} ::= CLASS {{ &code INTEGER UNIQUE, &Type OPTIONAL }}\n{} ::= {}", top_name(i), with_class_field_at(&c.ty.asn(), i, last).unwrap_or_else(|| c.ty.asn()))
     });
     for o in obs.iter().flatten() {
         let _ = o;
-        rep.count("class-field-member");
+        rep.count(if last { "class-field-member(last occurrence)" } else { "class-field-member" });
     }
-    judge_obs(prop, &keep, obs, rep, describe, "one INTEGER component written as a fixed-type class field reference");
+    judge_obs(prop, &keep, obs, rep, describe, if last { CLASS_FIELD_SETTING_LAST } else { CLASS_FIELD_SETTING });
 }
 
 fn case_json(c: &Case, i: usize, setting: &str) -> serde_json::Value {
